@@ -28,16 +28,17 @@ type pathEnd struct {
 func unsupported(msg string) pathEnd { return pathEnd{kind: "unsupported", msg: msg} }
 
 type Violation struct {
-	Pkg     string
-	Harness string
-	Params  []int
-	Label   string
-	Kind    string // "assert" or "panic"
-	Msg     string
-	Model   map[string]uint64
-	Inputs  []InputRec
-	Trace   []Decision
-	Pos     string
+	ScheduleDependent bool // found under explored scheduling choices: native replay repeats it
+	Pkg               string
+	Harness           string
+	Params            []int
+	Label             string
+	Kind              string // "assert" or "panic"
+	Msg               string
+	Model             map[string]uint64
+	Inputs            []InputRec
+	Trace             []Decision
+	Pos               string
 }
 
 type InputRec struct {
